@@ -41,13 +41,43 @@ type RawRevision struct {
 
 // WriteRaw writes the revisions as one file. root is the catalog's object number; size the /Size value.
 func WriteRaw(revs []RawRevision, root NRef, size int, eol string) []byte {
+	return WriteRawOrdered(revs, root, size, eol, nil)
+}
+
+// WriteRawOrdered is WriteRaw with a physical order: revs is the logical history (oldest first, each section's
+// /Prev names its predecessor in this list), order lists the indices of revs in the sequence in which the
+// sections are laid out in the file (nil = logical order). The startxref at the end of the file names the
+// logically newest section wherever it lies - cross-reference sections are found through offsets only, as in
+// a linearized file, whose first-page section stands in front of the main one it names by /Prev (Annex F).
+// A /Prev that refers forward is written with leading zeros and filled in once the target has been written.
+func WriteRawOrdered(revs []RawRevision, root NRef, size int, eol string, order []int) []byte {
 	if eol == "" {
 		eol = "\n"
 	}
+	if len(order) != len(revs) {
+		order = make([]int, len(revs))
+		for i := range order {
+			order[i] = i
+		}
+	}
+	xoffOf := make([]int, len(revs))
+	written := make([]bool, len(revs))
+	type fix struct{ from, to, target int }
+	var fixes []fix
 	w := &writer{eol: eol, nb: &numbering{num: map[string]int{}, gen: map[string]int{}}}
 	w.buf.WriteString("%PDF-1.7" + eol + "%\xE2\xE3\xCF\xD3" + eol)
-	prev := -1
-	for _, rv := range revs {
+	for _, li := range order {
+		rv := revs[li]
+		secStart := w.buf.Len()
+		prev := -1
+		forward := false
+		if li > 0 {
+			if written[li-1] {
+				prev = xoffOf[li-1]
+			} else {
+				prev, forward = 8000000000+li, true // ten digits, replaced below
+			}
+		}
 		type xent struct{ typ, f1, f2, num int }
 		var entries []xent
 		var members []RawObj
@@ -121,7 +151,7 @@ func WriteRaw(revs []RawRevision, root NRef, size int, eol string) []byte {
 		if rv.XRef == "stream" {
 			entries = append(entries, xent{1, xoff, 0, rv.XRefNum})
 		}
-		if prev < 0 {
+		if li == 0 {
 			entries = append(entries, xent{0, 0, 65535, 0})
 		}
 		sort.SliceStable(entries, func(a, b int) bool { return entries[a].num < entries[b].num })
@@ -202,8 +232,22 @@ func WriteRaw(revs []RawRevision, root NRef, size int, eol string) []byte {
 			w.ser(&w.buf, trailer, 0, false)
 			w.buf.WriteString(eol)
 		}
+		xoffOf[li], written[li] = xoff, true
+		if forward {
+			fixes = append(fixes, fix{secStart, w.buf.Len(), li})
+		}
 		w.buf.WriteString("startxref" + eol + strconv.Itoa(xoff) + eol + "%%EOF" + eol)
-		prev = xoff
 	}
-	return w.buf.Bytes()
+	out := w.buf.Bytes()
+	for _, f := range fixes {
+		marker := []byte(strconv.Itoa(8000000000 + f.target))
+		if i := bytes.LastIndex(out[f.from:f.to], marker); i >= 0 {
+			copy(out[f.from+i:], fmt.Sprintf("%010d", xoffOf[f.target-1]))
+		}
+	}
+	if last := len(revs) - 1; last >= 0 && order[len(order)-1] != last {
+		// the file ends with the pointer to the logically newest section
+		out = append(out, []byte("startxref"+eol+strconv.Itoa(xoffOf[last])+eol+"%%EOF"+eol)...)
+	}
+	return out
 }
